@@ -16,6 +16,15 @@ package agreement
 //           (+ in "faults": delivered twice, reordered, crash-restart of a node from its last
 //           persisted state, timeout at a subset of the nodes only, fast-recovery timeout).
 //           Variants: 1 or 3 proposers, a node that never receives period-0 payloads, 2 rounds.
+//   sync-*-netsplit  selective delivery as single deviations: "slow payload" (every in-flight copy of
+//           one proposal payload is held back past the next 1 or 2 timeouts), "vote cut" (the votes of
+//           one (period, step) reach only node i, or do not cross {i}|rest), "node offline" (node i is
+//           cut off in both directions for the next 1..4 delivery sub-phases); <= 2 of them (thorough:
+//           + one lost/late message). With equal stakes (1 proposer) and with UNEQUAL stakes 10/45/45,
+//           threshold 70 of 100 (3 proposers; the two large nodes form a quorum, small+large do not).
+//   sync-3prop-w10-45-45  the unequal-stake system under lost/late messages.
+//   sync-1prop-latepayload-crashcut  one crash-restart at any decision point + one vote cut: the restored
+//           node runs on through its next timeouts and period 1.
 //   byz-3of4  3 honest + 1 adversary account, threshold 3 of 4: additionally adversary votes
 //           (soft/cert/next, any value seen or bottom, to any single node, incl. equivocation pairs).
 //   async-1prop  full asynchronous reachability (any delivery order, any-time timeouts, <=1
@@ -23,6 +32,10 @@ package agreement
 // Oracle: over all ensureActions ever emitted by honest nodes round -> block digest is a function;
 // no conflicting write into a node's mock ledger; no panic inside submitTop.
 //
+// Seeded changes (/verif/seeded, quick tier): C01-A (late-payload cert vote allowed in step next) DETECTED
+//   in sync-1prop-netsplit (slow payload + cert votes reach one node only); C01-B (encode drops the current
+//   round) DETECTED in sync-1prop-latepayload-crashcut (crash after the cert vote + vote cut => the restored
+//   node next-votes bottom => fork).
 // Mutants (bin/mut, quick tier):
 //   DETECTED  player.issueNextVote: next-vote bottom although the staged value is committable
 //             (`if answer.Committable` -> `if false && answer.Committable`): fork found with 2 lost messages.
